@@ -12,6 +12,7 @@ func init() {
 	vpRegister("vpH_C16_stats", vpH_C16_stats)
 	vpRegister("vpH_C16_afterfail", vpH_C16_afterfail)
 	vpRegister("vpH_C16_later", vpH_C16_later)
+	vpRegister("vpH_C16_manyfields", vpH_C16_manyfields)
 	vpRegister("vpH_K11_statsmerge", vpH_K11_statsmerge)
 	vpRegister("vpH_C17_assoc", vpH_C17_assoc)
 	vpRegister("vpH_C18_match", vpH_C18_match)
@@ -88,6 +89,36 @@ func vpH_C16_later() {
 	vpPoolReuse(false)
 	vpStatsCheck("built, after a later build", sa, vpBuildExpect(a, nil), false)
 	vpReach("C16 later end")
+}
+
+// C16 for a batch with many fields (70 / 130 / 300 field names): statistics of
+// every field, built, loaded and merged.
+func vpH_C16_manyfields() {
+	nf := []int{70, 130, 300}[vpChoice("fields", 3)]
+	var docs []*vpDoc
+	for d := 0; d < 3; d++ {
+		doc := &vpDoc{}
+		for f := 0; f < nf; f++ {
+			if (f+d)%3 == 0 {
+				continue // every field is missing from one of the three documents
+			}
+			name := "f" + vpItoa(1000+f)
+			doc.fields = append(doc.fields, &vpField{name: name, length: 1 + d, terms: []*vpTerm{{term: []byte("t"), freq: 1 + d}}})
+		}
+		docs = append(docs, doc)
+	}
+	seg := vpBuild(docs, 1025)
+	exp := vpBuildExpect(docs, nil)
+	switch vpChoice("kind", 3) {
+	case 0:
+		vpStatsCheck("built (many fields)", seg, exp, false)
+	case 1:
+		vpStatsCheck("loaded (many fields)", vpLoad(vpPersist(seg)), exp, false)
+	default:
+		mb, _ := vpMergeBytes([]*Segment{seg}, []*roaring.Bitmap{nil}, 1025)
+		vpStatsCheck("merged (many fields)", vpLoad(mb), exp, true)
+	}
+	vpReach("C16 manyfields end")
 }
 
 func vpH_C16_stats() {
@@ -223,7 +254,7 @@ func vpH_C18_match() {
 	docs := []*vpDoc{g.doc(2, 0), g.doc(9, 1), g.doc(5, 2)}
 	seg := vpBuild(docs, 1025)
 	held := docs
-	switch vpChoice("kind", 3) {
+	switch vpChoice("kind", 4) {
 	case 1:
 		seg = vpLoad(vpPersist(seg))
 	case 2:
@@ -232,6 +263,11 @@ func vpH_C18_match() {
 		mb, _ := vpMergeBytes([]*Segment{seg}, []*roaring.Bitmap{dr}, 1025)
 		seg = vpLoad(mb)
 		held = []*vpDoc{docs[0], docs[2]}
+	case 3:
+		// merged from two inputs that both hold every term (among them the empty term)
+		mb, _ := vpMergeBytes([]*Segment{seg, seg}, []*roaring.Bitmap{nil, nil}, 1025)
+		seg = vpLoad(mb)
+		held = append(append([]*vpDoc(nil), docs...), docs...)
 	}
 	exp := vpBuildExpect(held, vpFieldNames(docs))
 	fieldsTab := []string{"a", "b", "_id", "nofield", ""}
